@@ -16,6 +16,10 @@ Definition index_shapes_ok : bool :=
   && String.eqb IF.trie_value "table-offset"
   && String.eqb IF.csv_reader_options "flexible(true);has_headers(false);trim(Trim::None)".
 
+(* build_lattice's dictionary nodes are made as Model/DictCands.v says *)
+Definition lattice_shape_ok : bool :=
+  String.eqb IF.lattice_lookup_shape "lookup(mod_c2b[ch_off]);skip(end<len&&!can_bow(end));node(ch_off,mod_b2c[end])".
+
 Lemma bytes_eqb_true a b : bytes_eqb a b = true <-> a = b.
 Proof. apply list_eqb_N_eq. Qed.
 Lemma bytes_eqb_refl a : bytes_eqb a a = true.
